@@ -61,8 +61,10 @@ Fixpoint pkt_unmarshal_seq (prev : packet) (bufs : list (list Z)) : list value :
     | Ok r => VTag 0 (VList [v_packet (pr_packet r); VInt (pr_n r); v_offsets (hdr (pr_packet r)) (pr_offsets r)])
               :: pkt_unmarshal_seq (pr_packet r) t
     | Err e => VTag 1 (VInt (err_obs e)) :: pkt_unmarshal_seq empty_packet t
-        (* after an error the receiver is only partially updated; the harness replaces it by a
-           fresh one, and so does the model *)
+        (* after an error the implementation's receiver is only partially updated; the harness KEEPS it
+           and decodes the next input into it, the model continues from a fresh one: what Unmarshal
+           yields does not depend on the receiver (C02_reuse_packet), so the two must agree on every
+           later accepted input - which is the clause under test *)
     | Panic => VTag 2 VUnit :: pkt_unmarshal_seq empty_packet t
     end
   end.
